@@ -32,7 +32,7 @@ RULE = (
     "(float64, 1-D, C order) and variants: permuted points; 2-D, Fortran-ordered, strided, reversed-view, read-only and pandas-Series (shuffled index "
     "labels) containers of the same element sequence; extra ignored coordinates; integer-valued coordinates and/or data passed as int64 / int32 "
     "(and general float coordinates with integer data); queries reshaped to 0-d / 2-D / 3-D / Fortran / strided; queries with a size-1 northing; "
-    "linearity triples (d1, d2, a d1 + b d2) with a, b in +-10^[-12,12] or compensating the data magnitude, d2 in the same or another magnitude class, also with the caller re-using one data buffer. Data magnitudes cycle through 1e-15, 1e-12, 1e-9, 1e-6, 1, 1e6, 1e12 (tolerances stay relative); coordinate extents 1e-2..1e6 and (30 %) 1e-8..1e12. Point sets are in general "
+    "linearity triples (d1, d2, a d1 + b d2) with a, b in +-10^[-12,12] or compensating the data magnitude, d2 in the same or another magnitude class, also with the caller re-using one data buffer. Option values are also spelled differently (numpy.bool_ / comparison result / 1, 0 / 0-d array for rescale; int, numpy integer, numpy float for mindist, damping, poisson, k, degree; keyword, positional, set_params) and compared with the plain spelling. Data magnitudes cycle through 1e-15, 1e-12, 1e-9, 1e-6, 1, 1e6, 1e12 (tolerances stay relative); coordinate extents 1e-2..1e6 and (30 %) 1e-8..1e12. Point sets are in general "
     "position, 4..150 points, scales 1e-2..1e6. A variant is non-trivial when the group has >= 4 points, non-constant data and the transformation "
     "really changed memory layout / container / order / dtype (checked on the arrays); distinct = hash of gridder configuration + inputs + variant."
 )
@@ -70,9 +70,13 @@ FLOORS = {  # ~40 % of what the unchanged tree produces at quick seed 0 (see evi
         "permutation_invariance:data_magnitude=1e-15": 19, "query_layout:0d": 132, "query_layout:2d_fortran": 132, "query_layout:3d": 114,
         "reference_agreement:m==2n": 4, "reference_agreement:m==n": 10, "reference_agreement:m==n+1": 4, "reference_agreement:m==n-1": 6,
         "refit_history:chain": 12, "refit_history:cubic": 17, "refit_history:linear": 19, "refit_history:neighbors": 36,
-        "refit_history:other_points": 23, "refit_history:other_points_same_size": 22, "refit_history:same_points_permuted": 132, "refit_history:same_points_permuted_vs_base": 115,
-        "refit_history:spline": 76, "refit_history:subset": 39, "refit_history:superset": 45, "refit_history:trend": 52, "refit_history:vector": 36,
-        "refit_history:vector_of": 12,
+        "refit_history:other_points": 23, "refit_history:other_points_same_size": 22, "refit_history:same_points_permuted": 132,
+        "refit_history:same_points_permuted_vs_base": 115, "refit_history:spline": 76, "refit_history:subset": 39, "refit_history:superset": 45,
+        "refit_history:trend": 52, "refit_history:vector": 36, "refit_history:vector_of": 12, "groups:spelling:cubic": 3,
+        "groups:spelling:linear": 3, "groups:spelling:neighbors": 3, "groups:spelling:spline": 3, "groups:spelling:trend": 3,
+        "groups:spelling:vector": 3, "option_spelling:cubic": 48, "option_spelling:keyword": 73, "option_spelling:linear": 48,
+        "option_spelling:neighbors": 38, "option_spelling:positional": 73, "option_spelling:set_params": 89, "option_spelling:spline": 32,
+        "option_spelling:trend": 38, "option_spelling:vector": 32, "option_spelling:within_strict_tolerance": 236, "eval:option_spelling": 236,
     },
     "thorough": {
         "eval:broadcast_shape": 4040, "eval:dtype_invariance": 12880, "eval:extra_coords_ignored": 2640, "eval:fitted_model_owns_its_data": 1000,
@@ -98,9 +102,14 @@ FLOORS = {  # ~40 % of what the unchanged tree produces at quick seed 0 (see evi
         "permutation_invariance:data_magnitude=1e-12": 360, "permutation_invariance:data_magnitude=1e-15": 380, "query_layout:0d": 2640,
         "query_layout:2d_fortran": 2640, "query_layout:3d": 2280, "reference_agreement:m==2n": 80, "reference_agreement:m==n": 200,
         "reference_agreement:m==n+1": 80, "reference_agreement:m==n-1": 120, "refit_history:chain": 240, "refit_history:cubic": 340,
-        "refit_history:linear": 380, "refit_history:neighbors": 720, "refit_history:other_points": 460, "refit_history:other_points_same_size": 440, "refit_history:same_points_permuted": 2640,
-        "refit_history:same_points_permuted_vs_base": 2300, "refit_history:spline": 1520, "refit_history:subset": 780, "refit_history:superset": 900,
-        "refit_history:trend": 1040, "refit_history:vector": 720, "refit_history:vector_of": 240,
+        "refit_history:linear": 380, "refit_history:neighbors": 720, "refit_history:other_points": 460, "refit_history:other_points_same_size": 440,
+        "refit_history:same_points_permuted": 2640, "refit_history:same_points_permuted_vs_base": 2300, "refit_history:spline": 1520,
+        "refit_history:subset": 780, "refit_history:superset": 900, "refit_history:trend": 1040, "refit_history:vector": 720,
+        "refit_history:vector_of": 240, "groups:spelling:cubic": 60, "groups:spelling:linear": 60, "groups:spelling:neighbors": 60,
+        "groups:spelling:spline": 60, "groups:spelling:trend": 60, "groups:spelling:vector": 60, "option_spelling:cubic": 960,
+        "option_spelling:keyword": 1460, "option_spelling:linear": 960, "option_spelling:neighbors": 760, "option_spelling:positional": 1460,
+        "option_spelling:set_params": 1780, "option_spelling:spline": 640, "option_spelling:trend": 760, "option_spelling:vector": 640,
+        "option_spelling:within_strict_tolerance": 4720, "eval:option_spelling": 4720,
     },
 }
 JOBS = {"quick": 1, "thorough": 16}
@@ -109,8 +118,8 @@ CASE_TIMEOUT_S = 240
 
 def plan(tier):
     if tier == "quick":
-        return collections.OrderedDict(spline=70, trend=65, vector=32, neighbors=46, scipy=46, composite=32, forces=40)
-    return collections.OrderedDict(spline=1400, trend=1300, vector=640, neighbors=920, scipy=920, composite=640, forces=800)
+        return collections.OrderedDict(spline=70, trend=65, vector=32, neighbors=46, scipy=46, composite=32, forces=40, spelling=48)
+    return collections.OrderedDict(spline=1400, trend=1300, vector=640, neighbors=920, scipy=920, composite=640, forces=800, spelling=960)
 
 
 # ----------------------------------------------------------------------
@@ -1119,7 +1128,107 @@ def _stream_forces(run, rng, verde, index):
     run.sample("forces", {"gridder": model.label, "n_data": n, "n_forces": m, "compared": "base vs reference least squares on the reference Jacobian, point orders, refits, layouts"})
 
 
-_STREAMS = {"forces": _stream_forces, "spline": _stream_spline, "trend": _stream_trend, "vector": _stream_vector, "neighbors": _stream_neighbors, "scipy": _stream_scipy,
+def _spell(value):
+    """Equivalent spellings of a boolean or integer-valued option value."""
+    if isinstance(value, bool):
+        return [("numpy.bool_", np.bool_(value)), ("comparison", np.float64(1.0) > (0.0 if value else 2.0)), ("int", int(value)), ("0-d array", np.array(value)),
+                ("numpy.int64", np.int64(int(value)))]
+    v = int(value)
+    return [("int", v), ("numpy.int64", np.int64(v)), ("numpy.int32", np.int32(v)), ("numpy.float64", np.float64(v)), ("numpy.float32", np.float32(v))]
+
+
+def _stream_spelling(run, rng, verde, index):
+    """One configuration, its option values spelled differently (numpy scalars, ints for floats, 0-d arrays; keyword / positional / set_params)."""
+    kind = index % 6
+    n = int(rng.integers(8, 60))
+    scale = float(rng.choice([5.0, 50.0, 500.0]))
+    want_w = rng.random() < 0.4 and kind in (0, 1, 3)
+    east, north, data, weights = _inputs(rng, n, 2 if kind == 1 else 1, want_w, scale=scale, magnitude=_magnitude(index))
+    qe, qn = _queries(rng, east, north, 12)
+    variants = []  # (label, factory)
+    if kind == 0:
+        mindist, damping = float(rng.choice([0, 1, 2])), float(rng.choice([1, 3, 10]))
+        model = Model("spline", "Spline(mindist=%g, damping=%g)" % (mindist, damping), lambda: verde.Spline(mindist=mindist, damping=damping), linear=True, mindist=mindist,
+                      damping=damping, force_coords=None)
+        for (la, md), (lb, dp) in zip(_spell(mindist), _spell(damping)[::-1]):
+            variants.append(("mindist=%s,damping=%s" % (la, lb), lambda md=md, dp=dp: verde.Spline(mindist=md, damping=dp)))
+            variants.append(("set_params(mindist=%s,damping=%s)" % (la, lb), lambda md=md, dp=dp: verde.Spline().set_params(mindist=md, damping=dp)))
+    elif kind == 1:
+        poisson, mindist, damping = float(rng.choice([-1, 0, 1])), float(rng.choice([1, 3])) * scale / 5, float(rng.choice([1, 10]))
+        model = Model("vector", "VectorSpline2D(poisson=%g, mindist=%g, damping=%g)" % (poisson, mindist, damping),
+                      lambda: verde.VectorSpline2D(poisson=poisson, mindist=mindist, damping=damping), ncomp=2, linear=True, poisson=poisson, mindist=mindist, damping=damping,
+                      force_coords=None)
+        for (la, nu), (lb, md), (lc, dp) in zip(_spell(poisson), _spell(mindist)[::-1], _spell(damping)):
+            variants.append(("poisson=%s,mindist=%s,damping=%s" % (la, lb, lc), lambda nu=nu, md=md, dp=dp: verde.VectorSpline2D(nu, md, dp)))
+            variants.append(("set_params(poisson=%s)" % la, lambda nu=nu: verde.VectorSpline2D(mindist=mindist, damping=damping).set_params(poisson=nu)))
+    elif kind == 2:
+        k = int(rng.choice([1, 2, 3, 5]))
+        model = Model("neighbors", "KNeighbors(k=%d)" % k, lambda: verde.KNeighbors(k=k), linear=True, k=k)
+        qe, qn = _drop_knn_ties(east, north, qe, qn, k)
+        if qe.size < 2:
+            run.count("skipped:knn_ties")
+            return
+        for label, kk in [("numpy.int64", np.int64(k)), ("numpy.int32", np.int32(k)), ("numpy.intp", np.intp(k)), ("numpy.uint8", np.uint8(k))]:
+            variants.append(("k=" + label, lambda kk=kk: verde.KNeighbors(k=kk)))
+            variants.append(("positional k=" + label, lambda kk=kk: verde.KNeighbors(kk)))
+            variants.append(("set_params(k=%s)" % label, lambda kk=kk: verde.KNeighbors().set_params(k=kk)))
+    elif kind == 3:
+        degree = int(rng.integers(0, 4))
+        model = Model("trend", "Trend(%d)" % degree, lambda: verde.Trend(degree), linear=True, degree=degree)
+        for label, dg in [("numpy.int64", np.int64(degree)), ("numpy.int32", np.int32(degree)), ("numpy.uint8", np.uint8(degree)), ("0-d int array", np.array(degree))]:
+            variants.append(("degree=" + label, lambda dg=dg: verde.Trend(degree=dg)))
+            variants.append(("positional degree=" + label, lambda dg=dg: verde.Trend(dg)))
+            variants.append(("set_params(degree=%s)" % label, lambda dg=dg: verde.Trend((degree + 1) % 4).set_params(degree=dg)))
+    else:
+        north = north * float(10 ** rng.uniform(2, 4))  # anisotropic: the rescale flag matters
+        data = tuple(gen.smooth_field(rng, east, north, float(np.max(np.abs(d)))) for d in data)
+        tri = np.array([rng.choice(n, 3, replace=False) for _ in range(12)])
+        wts = rng.dirichlet(np.ones(3) * 3, 12)
+        qe, qn = (east[tri] * wts).sum(axis=1), (north[tri] * wts).sum(axis=1)
+        cls = verde.Linear if kind == 4 else verde.Cubic
+        flag = bool((index // 6) % 3 != 2)
+        model = Model("linear" if kind == 4 else "cubic", "%s(rescale=%s)" % (cls.__name__, flag), lambda: cls(rescale=flag), linear=kind == 4, qhull=True, rescale=flag)
+        for label, value in _spell(flag):
+            variants.append(("rescale=" + label, lambda value=value: cls(rescale=value)))
+            variants.append(("positional rescale=" + label, lambda value=value: cls(value)))
+            variants.append(("set_params(rescale=%s)" % label, lambda value=value: cls(rescale=not flag).set_params(rescale=value)))
+    conf = {"gridder": model.label, "params": {k: v for k, v in model.params.items() if k != "force_coords"}}
+    wit0 = dict(conf, east=east, north=north, data=list(data), weights=None if weights is None else list(weights), query_east=qe, query_north=qn)
+    try:
+        base = _flat(_predict(_fit(model, (east, north), data, weights), (qe, qn)))
+    except Exception as exc:  # noqa: BLE001
+        if "qhull" in (type(exc).__name__ + str(exc)).lower():
+            run.count("refused:qhull")
+            return
+        raise
+    with np.errstate(all="ignore"):
+        refm = reference(model, east, north, data, weights, qe, qn)
+    rel = K_COND * refm["kappa_eff"] * EPS
+    informative = (refm["skip"] is None and rel <= UNINFORMATIVE) or model.qhull or model.kind == "neighbors"
+    tol_cond = max(rel if np.isfinite(rel) else 0.0, model.rtol) * refm["scale"]
+    run.count("groups:spelling:" + model.kind)
+    for label, factory in variants:
+        wit = dict(wit0, variant="spelling:" + label)
+        spelled = Model(model.kind, model.label + " spelled " + label, factory, ncomp=model.ncomp)
+        try:
+            got = _flat(_predict(_fit(spelled, (east, north), data, weights), (qe, qn)))
+        except Exception as exc:  # noqa: BLE001
+            run.evaluated("option_spelling")
+            run.violation("option_spelling", "%s with %s raised %s: %s (the plain spelling of the same values works)" % (model.label, label, type(exc).__name__, str(exc)[:300]),
+                          dict(wit, exception=type(exc).__name__), key="spelling:raised:" + model.kind)
+            continue
+        run.evaluated("option_spelling")
+        run.count("option_spelling:" + model.kind)
+        run.count("option_spelling:" + ("set_params" if label.startswith("set_params") else "positional" if label.startswith("positional") or model.kind == "vector" else "keyword"))
+        worst = _compare_refit(run, "option_spelling", model.label, "options spelled as " + label, base, got, 64 * EPS * refm["terms"], tol_cond, informative, wit,
+                               "spelling:" + model.kind)
+        run.observe_max("option_spelling_error_over_tolerance", worst)
+        if east.size >= 4:
+            run.mark_nontrivial("spelling", conf, label, east, north, data)
+    run.sample("spelling", {"gridder": model.label, "spellings": [v[0] for v in variants], "compared": "predictions with option values spelled differently against the plain spelling"})
+
+
+_STREAMS = {"spelling": _stream_spelling, "forces": _stream_forces, "spline": _stream_spline, "trend": _stream_trend, "vector": _stream_vector, "neighbors": _stream_neighbors, "scipy": _stream_scipy,
             "composite": _stream_composite}
 
 
